@@ -517,6 +517,8 @@ static void run_op(const std::vector<std::string> &w, const std::string &, out &
         bool l = w[1] == "l";
         uint64_t v = l ? (uint64_t)igv_atol(s) : (uint64_t)(uint32_t)igv_atoi(s);
         o.result = hexn(v, l ? 16 : 8);
+        if (!l && p.conv && (p.mag > (u128)INT_MAX + (p.neg ? 1 : 0)))
+            o.result = "unrepresentable"; // ISO 7.22.1.2: undefined - the value is NOT part of the observable
         __int128 val = p.conv ? (p.neg ? -(__int128)p.mag : (__int128)p.mag) : 0;
         bool repr = l ? (val >= INT64_MIN && val <= INT64_MAX) : (val >= INT_MIN && val <= INT_MAX);
         if (repr)
@@ -535,9 +537,9 @@ static void run_op(const std::vector<std::string> &w, const std::string &, out &
             // glibc's atoi is (int) strtol(...) as well, gcc truncates on both sides
             if (!l && val >= INT64_MIN && val <= INT64_MAX)
             {
+                // (not an oracle clause: the property cannot state anything about an undefined call)
                 uint64_t h = (uint64_t)(uint32_t)atoi(s);
-                if (h != v) o.fail("host glibc atoi (truncation of a long): " + hexn(h, 8));
-                o.tag("atoi-truncated");
+                o.tag(h == v ? "atoi-truncated-like-glibc" : "atoi-unrepresentable-differs-from-glibc");
             }
             o.tag("unrepresentable(undefined-in-ISO)");
         }
@@ -549,10 +551,14 @@ static void run_op(const std::vector<std::string> &w, const std::string &, out &
         igv_srand((unsigned)strtoul(w[1].c_str(), 0, 10));
         int n = atoi(w[2].c_str());
         std::string r;
+        uint64_t ref = (unsigned)strtoul(w[1].c_str(), 0, 10);
         for (int i = 0; i < n; i++)
         {
             int x = igv_rand();
             if (x < 0) o.fail("rand() < 0");
+            // the generator rand.c documents ("linear random generator"), evaluated independently in 64 bits
+            ref = ((ref * 16546134871ull + 513585871ull) & 0xffffffffull) % 204814687ull;
+            if ((uint64_t)x != ref / 2) o.fail("rand(): call " + std::to_string(i + 1) + " after srand(" + w[1] + ") returned " + std::to_string(x) + ", the linear congruential generator of rand.c gives " + std::to_string(ref / 2));
             r += (i ? "," : "") + std::to_string(x);
         }
         o.result = r.empty() ? "-" : r;
@@ -565,10 +571,13 @@ static void run_op(const std::vector<std::string> &w, const std::string &, out &
         unsigned sd = (unsigned)strtoul(w[1].c_str(), 0, 10);
         int n = atoi(w[2].c_str());
         std::string r;
+        uint64_t ref = sd;
         for (int i = 0; i < n; i++)
         {
             int x = igv_rand_r(&sd);
             if (x < 0) o.fail("rand_r() < 0");
+            ref = ((ref * 16546134871ull + 513585871ull) & 0xffffffffull) % 204814687ull;
+            if ((uint64_t)x != ref / 2 || sd != ref) o.fail("rand_r(): call " + std::to_string(i + 1) + " returned " + std::to_string(x) + " / left " + std::to_string(sd) + ", the generator of rand.c gives " + std::to_string(ref / 2) + " / " + std::to_string(ref));
             r += (i ? "," : "") + std::to_string(x);
         }
         o.result = r.empty() ? "-" : r;
@@ -735,6 +744,7 @@ static void run_op(const std::vector<std::string> &w, const std::string &, out &
         unsigned shape = atoi(w[5].c_str());
         uint64_t m = strtoul(w[6].c_str(), 0, 10);
         if (m == 0 || m > 256 || esize == 0) { o.result = "bad-op"; return; }
+        if (n >= 100000) arm(15); // a long array is allowed more than the 3 s of CPU time of an ordinary op (unoptimised coverage build)
         exact_buf a(n * esize);
         for (size_t i = 0; i < n; i++) put_elem(a.p + i * esize, esize, (unsigned)qsg_key(shape, i, n, m, seed), (unsigned)(i & 255));
         bytes before(a.p, a.p + n * esize);
@@ -812,7 +822,10 @@ static void run_op(const std::vector<std::string> &w, const std::string &, out &
     if (op == "consts")
     {
         // what the compiled code contains, against what the model embeds
-        o.result = "rand-state " + std::to_string(8 * igv_rand_state_size()) + (igv_rand_state_unsigned() ? "u" : "s") + " ERANGE " + std::to_string(igv_erange()) + " EINVAL " + std::to_string(igv_einval());
+        // rand.c's state: only bits 0..31 of an UNSIGNED object influence the sequence (theorem
+        // rand_state_width_irrelevant), so any unsigned type of >= 32 bits is the same generator
+        size_t rb = 8 * igv_rand_state_size();
+        o.result = (rb >= 32 && igv_rand_state_unsigned() ? std::string("rand-state>=32u") : "rand-state " + std::to_string(rb) + (igv_rand_state_unsigned() ? "u" : "s")) + " ERANGE " + std::to_string(igv_erange()) + " EINVAL " + std::to_string(igv_einval());
         return;
     }
     if (op == "ctype")
